@@ -4,7 +4,7 @@ import re as pyre
 import z3
 
 from .vals import *
-from .types import *
+from .tys import *
 from .strops import *
 from . import rx as rxmod
 from .interp import Raise, EngineLimit, NORMAL, SRange, UNBOUND, stmt_text
